@@ -138,12 +138,24 @@ def run(tier):
     with open(aux, 'w') as f:
         json.dump({'targets_en': [enc.lex_cat(s)[0] for s in inventory.targets('en')]}, f)
     rejects, stats = validate('traces/CatDictTrace.tla', events, 'c17', per_shard=4000, env={'AUX_FILE': aux})
+    from ..trace import binding_demo
+
+    def touch_tag(e):
+        if e['e'] == 'filter' and not e['raised']:
+            e['tag_out'][0][0][0] -= 8
+            return e
+
+    def touch_dep(e):
+        if e['e'] == 'filter' and not e['raised']:
+            e['dep_out'][0][0][0] -= 8
+            return e
+    demo = binding_demo('traces/CatDictTrace.tla', events, [('one_tag_score_changed', touch_tag), ('one_dependency_score_changed', touch_dep)], 'c17', env={'AUX_FILE': aux})
     viols = []
     for (i, clause) in rejects:
         m = metas[i]
         viols.append(Violation(PROP, clause, json.dumps({k: m[k] for k in m if k in ('words', 'dict', 'string', 'src', 'what')})[:400], m))
     cov.update({
-        'states': r.distinct + stats.states, 'transitions': r.generated + stats.transitions, 'traces_validated_against_impl': len(events),
+        'states': r.distinct + stats.states, 'transitions': r.generated + stats.transitions, 'binding_demonstration': demo, 'traces_validated_against_impl': len(events),
         'exhaustive': tier == 'thorough',
         'events': {'tlc_vectors_replayed': n_tlc, 'tlc_vectors_total': len(vecs), 'random_documents': n_rand, 'shipped_strings': n_ship,
                    'dictionary_category_strings': len(dict_strings)},
